@@ -20,13 +20,15 @@ def cast_values(values, form):
     """float64 array of the values an object of this form can hold (what is really passed)"""
     v = np.asarray(values, dtype=float)
     if form in ("I32", "I64"):
-        return np.rint(v).astype(DTYPES[form]).astype(float)
+        v = np.clip(np.rint(v), -2.0 ** 31, 2.0 ** 31 - 1)
+        return v.astype(DTYPES[form]).astype(float)
     if form == "U8":
         return np.clip(np.rint(np.abs(v)), 0, 255).astype(np.uint8).astype(float)
     if form == "FBool":
         return (v != 0).astype(float)
     if form == "F32":
-        return v.astype(np.float32).astype(float)
+        with np.errstate(over="ignore"):
+            return v.astype(np.float32).astype(float)
     return v.copy()
 
 
@@ -70,6 +72,8 @@ def cast_scalar(x, form):
 def present_scalar(x, form):
     if form == "SPyInt":
         return int(x)
+    if form == "SPyBool":
+        return bool(x)
     if form == "SNpFloat64":
         return np.float64(x)
     if form == "SNpFloat32":
@@ -88,8 +92,8 @@ def choose_array_form(rng, p_plain, pool):
 def choose_scalar_form(rng, x, p_plain=0.5):
     if rng.random() < p_plain:
         return "SPyFloat"
-    pool = ["SNpFloat64", "S0d", "SNpFloat32"]
-    if float(x) == int(x):
+    pool = ["SNpFloat64", "S0d"] + (["SNpFloat32"] if np.isfinite(np.float32(x)) and (x == 0 or np.float32(x) != 0) else [])
+    if float(x) == int(x) and abs(x) < 2 ** 31:
         pool += ["SPyInt", "SPyInt", "SNpInt64"]
     return rng.choice(pool)
 
@@ -114,7 +118,15 @@ def assign_forms(rng, case, preserve=False):
             f = choose_array_form(rng, 0.25, pool)
             if kind == "svd" and arg == "W" and f in ("F32", "U8", "FBool") and "near_dup_col" in case["tags"]:
                 f = "F64"    # invert_svd works in single precision on a float32 matrix: ill-conditioned ones are not asked of it
+        if f == "F32" and arg == "L" and "alpha" in case:
+            al = np.abs(case["alpha"] * a)
+            if not np.all((al == 0) | ((al > 1e-30) & (al < 1e30))):
+                f = "F64"            # alpha * L is formed in float32 for a float32 L: outside its range it under/overflows
+        if a.size == 0 and f == "FList":
+            f = "F64"                                # a nested list cannot express an empty 2-D shape
         newv = cast_values(a, f)
+        if not np.all(np.isfinite(newv)):        # e.g. 2^200 as float32: not representable, keep float64
+            f, newv = "F64", a.copy()
         if preserve and not np.array_equal(newv, a):
             f, newv = "F64", a.copy()
         if not np.array_equal(newv, a):
@@ -127,9 +139,14 @@ def assign_forms(rng, case, preserve=False):
             forms["guess"] = "GNone"
         elif isinstance(g, float):
             pool_g = ["GPyFloat", "GPyFloat", "GNpFloat64", "GNpFloat32", "G0d"]
-            if g == int(g):
+            if g == int(g) and abs(g) < 2 ** 31:
                 pool_g += ["GPyInt", "GPyInt", "GNpInt64"]
+            if g in (0.0, 1.0):
+                pool_g += ["GPyBool", "GPyBool"]
             f = rng.choice(pool_g)
+            g32 = float(np.float32(g))
+            if f == "GNpFloat32" and not np.isfinite(g32):
+                f = "GPyFloat"
             case["guess"] = cast_scalar(g, {"GNpFloat32": "SNpFloat32"}.get(f, "SPyFloat"))
             forms["guess"] = f
         for name in ("relax", "tol") + (("beta",) if kind == "csart" else ()):
@@ -141,13 +158,20 @@ def assign_forms(rng, case, preserve=False):
         f = choose_scalar_form(rng, case["alpha"])
         case["alpha"] = cast_scalar(case["alpha"], f)
         forms["alpha"] = f
+    # how the call is written: positional / keyword arguments, optional arguments left to their documented defaults,
+    # through the package re-export or the defining module
+    case["call"] = rng.choice(["mixed", "mixed", "positional", "keywords", "defaults", "defaults"])
+    case["via_module"] = rng.random() < 0.3
+    case["tags"].add("call_" + case["call"])
+    if case["call"] == "defaults" and forms.get("alpha") and float(case["alpha"]) == 0.01:
+        forms["alpha"] = "SPyFloat"          # left out of the call: the function's own Python float default is used
     case["forms"] = forms
     for arg, f in forms.items():
         case["tags"].add("form_%s_%s" % (arg, f))
     return case
 
 
-GUESS_SCALAR = {"GPyFloat": "SPyFloat", "GPyInt": "SPyInt", "GNpFloat64": "SNpFloat64", "GNpFloat32": "SNpFloat32",
+GUESS_SCALAR = {"GPyFloat": "SPyFloat", "GPyInt": "SPyInt", "GPyBool": "SPyBool", "GNpFloat64": "SNpFloat64", "GNpFloat32": "SNpFloat32",
                 "GNpInt64": "SNpInt64", "G0d": "S0d"}
 
 
@@ -194,3 +218,24 @@ def coq_alpha_form(case):
 
 def outcome_of_exception(ex):
     return OUTCOME.get(type(ex).__name__, "ErrOtherE")
+
+
+SART_DEFAULTS = {"initial_guess": None, "max_iterations": 250, "relaxation": 1.0, "beta_laplace": 0.01, "conv_tol": 1.0E-4}
+LSQ_DEFAULTS = {"alpha": 0.01, "tikhonov_matrix": None}
+
+
+def call_with_style(fn, style, names, values, required, defaults, case_values):
+    """names: parameter names in signature order; values: objects to pass; case_values: the plain values (to decide
+    whether an optional argument equals its documented default and may be left out)"""
+    if style == "positional":
+        return fn(*[values[k] for k in names])
+    if style == "keywords":
+        return fn(**{k: values[k] for k in names})
+    kw = {k: values[k] for k in names[required:]}
+    if style == "defaults":
+        for k in list(kw):
+            cv, dv = case_values[k], defaults[k]
+            if (cv is None and dv is None) or (cv is not None and dv is not None and not isinstance(cv, np.ndarray)
+                                               and float(cv) == float(dv)):
+                del kw[k]
+    return fn(*[values[k] for k in names[:required]], **kw)
